@@ -282,6 +282,12 @@ func (f *FuncCtx) specType(text string) types.Type {
 		pos = f.Decl.Body.Lbrace + 1
 	}
 	tv, err := types.Eval(f.Pkg.Fset, pkg, pos, text)
+	if err != nil && f.spec != nil && f.spec.pkg != nil && f.spec.pkg != pkg {
+		// contract text that belongs to another package (its axioms / callee contracts)
+		if tv2, err2 := types.Eval(f.Pkg.Fset, f.spec.pkg, token.NoPos, text); err2 == nil {
+			tv, err = tv2, nil
+		}
+	}
 	if err != nil {
 		// package-qualified names live in file scopes: try each file of the package
 		for _, file := range f.Pkg.Syntax {
@@ -359,6 +365,10 @@ func (f *FuncCtx) specCall(e *ast.CallExpr, env *Env) ([]Val, bool) {
 		}
 		vn := e.Args[0].(*ast.Ident).Name
 		m := f.specExpr(e.Args[1], env)
+		if m.Typ == nil {
+			f.fail("%s over untyped %s", id.Name, exprStr(e.Args[1]))
+			return []Val{f.boolVal("true")}, true
+		}
 		mt, ok := m.Typ.Underlying().(*types.Map)
 		if !ok {
 			f.fail("%s over non-map %s", id.Name, exprStr(e.Args[1]))
@@ -432,6 +442,10 @@ func (f *FuncCtx) specCall(e *ast.CallExpr, env *Env) ([]Val, bool) {
 			return []Val{f.boolVal("true")}, true
 		}
 		m := f.specExpr(e.Args[0], env)
+		if m.Typ == nil {
+			f.fail("has over untyped %s", exprStr(e.Args[0]))
+			return []Val{f.boolVal("true")}, true
+		}
 		mt, ok := m.Typ.Underlying().(*types.Map)
 		if !ok {
 			f.fail("has over non-map")
